@@ -2,6 +2,7 @@
 //! scenario crate — where the generic code of gitoxide gets instantiated — can be compiled with coverage-edge callbacks
 //! (pre-emption opportunities) while the scheduler's own code is not.
 #![allow(dead_code)]
+pub mod cli;
 pub mod driver;
 pub mod fsx;
 pub mod io;
